@@ -36,7 +36,7 @@ def wrap32 (v : Nat) : Int := if v ≥ 2147483648 then (v : Int) - 4294967296 el
 theorem recordSize_cons (p0 p1 l0 l1 l2 l3 : UInt8) (rest : Bytes) :
     recordSize (p0 :: p1 :: l0 :: l1 :: l2 :: l3 :: rest) = wrap32 (len4 l0 l1 l2 l3) := by
   have h0 := l0.toNat_lt; have h1 := l1.toNat_lt; have h2 := l2.toNat_lt; have h3 := l3.toNat_lt
-  simp only [recordSize, Gen.Row.lengthField, List.foldl, byteAt, List.getD_cons_succ,
+  simp only [recordSize, cInt32, Gen.Row.lengthField, List.foldl, byteAt, List.getD_cons_succ,
     List.getD_cons_zero, wrap32, len4]
   rw [or4 _ _ _ _ h1 h2 h3]
   have : (l0.toNat * 16777216 + l1.toNat * 65536 + l2.toNat * 256 + l3.toNat) % 2 ^ 32
